@@ -276,6 +276,10 @@ def o_handler_cancel(case, obs):
     for idx, (j, inp, v, t) in enumerate(flat):
         if inp != 1:
             continue
+        # an earlier invocation with the same payload may have left a periodic victim with the same
+        # payload whose key was displaced (not cancelled): its occurrences cannot be told apart
+        if any(i0 == 1 and v0 == v for (_, i0, v0, _) in flat[:idx]):
+            continue
         rekey = False
         for (j2, inp2, v2, t2) in flat[idx + 1:]:
             if t2 > t + d:
